@@ -362,7 +362,7 @@ fn clone_lex(l: &Lexicon, ls: &LexSpec, t: LexType) -> Lexicon {
     Lexicon::verif_from_parts(ls.trie, copy_u32(ls.post), params, feats, t)
 }
 
-//@ c06_tokens_invariant_ab {"desc":"tokenizing \"ab\" with the mapped dictionary gives the same optimal cost and, per boundary, the same candidates with the same prefix minima as the unmapped one, for swapped ids on both sides","bounds":"N=2; dictionary S6 (system {a,ab}, user {b}, 3x3 matrix); mappings [2,1],[2,1]","symbolic":"all costs/ids, matrix","functions":["Dictionary::map_connection_ids_from_iter","Worker::tokenize","Tokenizer::build_lattice","Lattice::*"],"unwind":8,"fs":2048,"timeout":1800,"mem_gb":20,"stubs":["alloc::fmt::format"]}
+//@ c06_tokens_invariant_ab {"tier":"thorough","core":false,"desc":"tokenizing \"ab\" with the mapped dictionary gives the same optimal cost and, per boundary, the same candidates with the same prefix minima as the unmapped one, for swapped ids on both sides","bounds":"N=2; dictionary S6 (system {a,ab}, user {b}, 3x3 matrix); mappings [2,1],[2,1]","symbolic":"all costs/ids, matrix","functions":["Dictionary::map_connection_ids_from_iter","Worker::tokenize","Tokenizer::build_lattice","Lattice::*"],"unwind":8,"fs":2048,"timeout":1800,"mem_gb":20,"stubs":["alloc::fmt::format"]}
 #[cfg(kani)]
 #[kani::proof]
 #[kani::stub(alloc::fmt::format, stub_format)]
